@@ -1,91 +1,218 @@
 #!/usr/bin/env python3
 """tools/fuzz_stage.py <ID> <harness-dir> <verif-bin> <evidence-file> <seed>
-Coverage-guided stage of the thorough tier for the two totality properties (C05: asm_total,
-C14: cmd_total). Builds the libFuzzer target against the current tree (cfg lace_verif), runs N
-processes with fixed -seed/-runs on a fresh corpus seeded from fuzz/seeds, re-judges every crash
-artifact with the strict in-process check of the harness, records the stage in the evidence file.
-Exit status: 0 nothing found, 1 confirmed violation (prints VIOLATION lines), 3 stage unavailable."""
-import json, os, shutil, subprocess, sys, tempfile, glob
+Coverage-guided stage (libFuzzer) of the thorough tier.
+
+Two kinds of target, both built against the current tree with --cfg lace_verif:
+ * byte-level (C05: asm_total on assembler text, C14: cmd_total on debugger scripts): totality
+   oracles inside the target, raw UTF-8 inputs seeded from fuzz/seeds with a dictionary;
+ * structure-aware (prop_fuzz, every property whose check runs in-process): the input is the
+   random tape of the property's own proptest generators, the verdict is the strict judge used
+   for replay files (harness/src/fuzzmode.rs). The target shrinks a failure with the strategy's
+   value tree and writes it as an ordinary replay file; it keeps fuzzing with that signature
+   excluded.
+Fixed work (-runs, -seed per process, fresh corpus) - no time limit decides anything. Every
+reported failure and every crash artifact is re-judged by `lace-verif replay` (profile A) before
+it counts. Exit status: 0 nothing found, 1 confirmed violation (VIOLATION lines), 3 stage
+unavailable (build failed)."""
+import glob, json, os, shutil, subprocess, sys, tempfile
 
 ID, HARNESS, BIN, EVID, SEED = sys.argv[1:6]
 SEED = int(SEED)
-target, seeds, dic, max_len, runs, mask = {
+NPROC = int(os.environ.get("VERIF_FUZZ_PROCS", "12"))
+SCALE = float(os.environ.get("VERIF_FUZZ_SCALE", "1"))
+BYTE = {
     "C05": ("asm_total", "asm", "asm.dict", 1024, 120_000, 1),
     "C14": ("cmd_total", "cmd", "cmd.dict", 256, 60_000, 3),
-}[ID]
-NPROC = 12
+}
+# runs per process of the structure-aware target (about 2-3 minutes each on this machine)
+PROP = {
+    "C01": 160_000, "C02": 300_000, "C03": 90_000, "C04": 160_000, "C05": 240_000, "C09": 60_000, "C10": 55_000,
+    "C11": 65_000, "C12": 45_000, "C13": 70_000, "C14": 100_000, "C15": 70_000, "C16": 110_000, "C17": 25_000,
+    "C18": 70_000, "C19": 55_000, "C20": 380_000,
+}
 env = dict(os.environ, CARGO_NET_OFFLINE="true", RUSTFLAGS="--cfg lace_verif")
-note = {"target": target, "processes": NPROC, "runs_per_process": runs, "max_len": max_len}
+notes = {}
+confirmed = 0
+vdir = os.path.join(os.path.dirname(EVID), "violations", ID)
+scratch = os.environ.get("VERIF_SCRATCH", os.path.join(os.path.dirname(HARNESS), "target"))
+os.makedirs(scratch, exist_ok=True)
 
-def finish(code, extra):
-    note.update(extra)
+
+def finish(code):
     try:
         ev = json.load(open(EVID))
-        ev["coverage"]["libfuzzer"] = note
+        ev["coverage"]["libfuzzer"] = notes
         if code == 1:
-            ev["violations"] = ev.get("violations", 0) + note.get("confirmed_violations", 0)
+            ev["violations"] = ev.get("violations", 0) + confirmed
         json.dump(ev, open(EVID, "w"), indent=1)
     except Exception as e:
         print("fuzz stage: cannot update evidence:", e, file=sys.stderr)
     sys.exit(code)
 
-b = subprocess.run(["cargo", "+nightly", "fuzz", "build", target], cwd=HARNESS, env=env, capture_output=True, text=True)
-if b.returncode != 0:
-    print("fuzz stage: build failed (stage skipped):", b.stderr[-400:], file=sys.stderr)
-    finish(3, {"status": "build failed, stage skipped"})
-exe = os.path.join(HARNESS, "fuzz/target/x86_64-unknown-linux-gnu/release", target)
-work = tempfile.mkdtemp(prefix="lace-fuzz-", dir=os.environ.get("VERIF_SCRATCH", os.path.join(os.path.dirname(HARNESS), "target")))
-procs = []
-for i in range(NPROC):
-    corpus = os.path.join(work, f"corpus{i}"); art = os.path.join(work, f"art{i}") + "/"
-    os.makedirs(corpus); os.makedirs(art)
-    for f in glob.glob(os.path.join(HARNESS, "fuzz/seeds", seeds, "*")):
-        shutil.copy(f, corpus)
-    cmd = [exe, corpus, f"-runs={runs}", f"-seed={SEED * 1000 + i + 1}", f"-max_len={max_len}", "-len_control=0",
-           f"-dict={os.path.join(HARNESS, 'fuzz', dic)}", f"-artifact_prefix={art}", f"-close_fd_mask={mask}", "-timeout=20", "-rss_limit_mb=3000"]
-    procs.append((i, art, subprocess.Popen(cmd, stdin=subprocess.DEVNULL, stdout=subprocess.DEVNULL, stderr=open(os.path.join(work, f"log{i}"), "w"))))
-crashes = []
-total = 0
-for i, art, p in procs:
-    p.wait()
-    log = open(os.path.join(work, f"log{i}"), errors="replace").read()
-    for line in log.splitlines():
-        if line.startswith("Done ") and " runs in " in line:
-            total += int(line.split()[1])
-        elif line.startswith("#") and "\t" in line:
-            pass
-    crashes += sorted(glob.glob(art + "crash-*")) + sorted(glob.glob(art + "timeout-*")) + sorted(glob.glob(art + "oom-*"))
-confirmed = 0
-vdir = os.path.join(os.path.dirname(EVID), "violations", ID)
-for c in crashes[:20]:
-    data = open(c, "rb").read()
-    if os.path.basename(c).startswith(("timeout", "oom")):
-        print(f"fuzz stage: {os.path.basename(c)} (infrastructure: not a verdict)", file=sys.stderr)
-        continue
-    if ID == "C05":
-        if not data:
-            continue
-        try:
-            text = data[1:].decode("utf-8")
-        except UnicodeDecodeError:
-            continue
-        case = {"text": text, "stack": bool(data[0] & 1), "mutated": True, "kind": "libfuzzer"}
-    else:
-        try:
-            script = data.decode("utf-8")
-        except UnicodeDecodeError:
-            continue
-        cmds = [x for x in script.replace(";", "\n").split("\n")]
-        case = {"Transport": {"commands": cmds, "split": len(cmds), "sep_arg": False, "sep_stdin": False, "decorate": 3}}
+
+def build(target, sanitizer):
+    """ASan builds live in fuzz/target, uninstrumented-for-memory (fast) ones in fuzz/target-fast"""
+    tdir = os.path.join(HARNESS, "fuzz", "target" if sanitizer else "target-fast")
+    cmd = ["cargo", "+nightly", "fuzz", "build", "--target-dir", tdir] + (["-s", "none"] if not sanitizer else []) + [target]
+    b = subprocess.run(cmd, cwd=HARNESS, env=env, capture_output=True, text=True)
+    if b.returncode != 0:
+        print(f"fuzz stage: build of {target} failed (stage skipped):", b.stderr[-600:], file=sys.stderr)
+        return None
+    return os.path.join(tdir, "x86_64-unknown-linux-gnu/release", target)
+
+
+def rejudge(path):
+    """strict re-judgement of a replay document; True = an unknown failure reproduces"""
+    r = subprocess.run([BIN, "replay", ID, path], capture_output=True, text=True, env=dict(os.environ, VERIF_PROFILE="A"))
+    return r.returncode != 0 or ('"fail":{' in r.stdout and '"known":true' not in r.stdout)
+
+
+def report(doc, tag):
+    global confirmed
     os.makedirs(vdir, exist_ok=True)
-    rp = os.path.join(vdir, f"{ID}-libfuzzer-{os.path.basename(c)[-16:]}.json")
-    json.dump({"property": ID, "signature": f"{ID}:libfuzzer", "message": "crash artifact of the libFuzzer stage", "case": case}, open(rp, "w"), indent=1, ensure_ascii=False)
-    r = subprocess.run([BIN, "replay", ID, rp], capture_output=True, text=True, env=dict(os.environ, VERIF_PROFILE="A"))
-    out = r.stdout
-    if r.returncode != 0 or ('"fail":{' in out and '"known":true' not in out):
+    rp = os.path.join(vdir, f"{ID}-libfuzzer-{tag}.json")
+    json.dump(doc, open(rp, "w"), indent=1, ensure_ascii=False)
+    if rejudge(rp):
         confirmed += 1
+        print(f"violation [{doc.get('signature', ID + ':libfuzzer')}] {str(doc.get('message', '')).splitlines()[0] if doc.get('message') else ''}")
         print(f"VIOLATION property={ID} replay={rp}")
-    else:
-        os.remove(rp)
-shutil.rmtree(work, ignore_errors=True)
-finish(1 if confirmed else 0, {"status": "ran", "total_execs": total, "crash_artifacts": len(crashes), "confirmed_violations": confirmed, "seed": SEED})
+        return True
+    os.remove(rp)
+    return False
+
+
+def run_procs(exe, work, runs, max_len, extra, seeds_from, envx, slow_exe=None, nslow=0):
+    """`nslow` of the processes run `slow_exe` (the AddressSanitizer build) with a third of the runs"""
+    procs = []
+    fast_exe, fast_runs = exe, runs
+    for i in range(NPROC):
+        exe, runs = (slow_exe, max(1000, fast_runs // 3)) if (slow_exe and i < nslow) else (fast_exe, fast_runs)
+        corpus = os.path.join(work, f"corpus{i}")
+        art = os.path.join(work, f"art{i}") + "/"
+        os.makedirs(corpus)
+        os.makedirs(art)
+        for f in glob.glob(os.path.join(seeds_from, "*")):
+            shutil.copy(f, corpus)
+        cmd = [exe, corpus, f"-runs={runs}", f"-seed={SEED * 1000 + i + 1}", f"-max_len={max_len}", "-len_control=0",
+               f"-artifact_prefix={art}", "-timeout=60", "-rss_limit_mb=3000"] + extra
+        e = dict(envx, VERIF_FUZZ_OUT=os.path.join(work, f"out{i}"))
+        procs.append((i, art, subprocess.Popen(cmd, stdin=subprocess.DEVNULL, stdout=subprocess.DEVNULL, stderr=open(os.path.join(work, f"log{i}"), "w"), env=e)))
+    total, crashes = 0, []
+    for i, art, p in procs:
+        p.wait()
+        log = open(os.path.join(work, f"log{i}"), errors="replace").read()
+        for line in log.splitlines():
+            if line.startswith("Done ") and " runs in " in line:
+                total += int(line.split()[1])
+        crashes += sorted(glob.glob(art + "crash-*")) + sorted(glob.glob(art + "timeout-*")) + sorted(glob.glob(art + "oom-*"))
+    return total, crashes
+
+
+def byte_stage():
+    target, seeds, dic, max_len, runs, mask = BYTE[ID]
+    note = {"target": target, "processes": NPROC, "runs_per_process": runs, "max_len": max_len}
+    notes["byte_level"] = note
+    exe = build(target, True)
+    if exe is None:
+        note["status"] = "build failed, stage skipped"
+        return
+    work = tempfile.mkdtemp(prefix="lace-fuzz-", dir=scratch)
+    total, crashes = run_procs(exe, work, runs, max_len, [f"-dict={os.path.join(HARNESS, 'fuzz', dic)}", f"-close_fd_mask={mask}"],
+                               os.path.join(HARNESS, "fuzz/seeds", seeds), dict(os.environ))
+    found = 0
+    for c in crashes[:20]:
+        data = open(c, "rb").read()
+        if os.path.basename(c).startswith(("timeout", "oom")):
+            print(f"fuzz stage: {os.path.basename(c)} (infrastructure: not a verdict)", file=sys.stderr)
+            continue
+        if ID == "C05":
+            if not data:
+                continue
+            try:
+                text = data[1:].decode("utf-8")
+            except UnicodeDecodeError:
+                continue
+            case = {"text": text, "stack": bool(data[0] & 1), "mutated": True, "kind": "libfuzzer"}
+        else:
+            try:
+                script = data.decode("utf-8")
+            except UnicodeDecodeError:
+                continue
+            cmds = [x for x in script.replace(";", "\n").split("\n")]
+            case = {"Transport": {"commands": cmds, "split": len(cmds), "sep_arg": False, "sep_stdin": False, "decorate": 3}}
+        doc = {"property": ID, "signature": f"{ID}:libfuzzer", "message": "crash artifact of the libFuzzer stage", "case": case}
+        if report(doc, os.path.basename(c)[-16:]):
+            found += 1
+    shutil.rmtree(work, ignore_errors=True)
+    note.update({"status": "ran", "total_execs": total, "crash_artifacts": len(crashes), "confirmed_violations": found, "seed": SEED})
+
+
+def prop_stage():
+    runs = max(1000, int(PROP[ID] * SCALE))
+    note = {"target": "prop_fuzz (tape of the property's own generators -> strict replay judge)", "processes": NPROC, "runs_per_process": runs, "max_len": 8192}
+    notes["structure_aware"] = note
+    exe = build("prop_fuzz", False)
+    if exe is None:
+        note["status"] = "build failed, stage skipped"
+        return
+    # lace contains `unsafe` (unchecked indexing, lifetime extension): a quarter of the processes run
+    # the AddressSanitizer build so that silent memory corruption becomes a visible failure
+    asan = build("prop_fuzz", True)
+    nslow = NPROC // 4 if asan else 0
+    note["asan_processes"] = nslow
+    work = tempfile.mkdtemp(prefix="lace-pfuzz-", dir=scratch)
+    seeds = os.path.join(work, "seeds")
+    subprocess.run([BIN, "fuzzseeds", ID, seeds, "64", str(SEED)], capture_output=True, env=dict(os.environ, VERIF_PROFILE="A"))
+    envx = dict(os.environ, VERIF_FUZZ_ID=ID, NO_COLOR="1")
+    envx.pop("CLICOLOR_FORCE", None)
+    total, crashes = run_procs(exe, work, runs, 8192, ["-close_fd_mask=2"], seeds, envx, asan, nslow)
+    stats = {}
+    found = 0
+    seen = set()
+    for i in range(NPROC):
+        out = os.path.join(work, f"out{i}")
+        try:
+            for k, v in json.load(open(os.path.join(out, "stats.json"))).items():
+                stats[k] = stats.get(k, 0) + v
+        except Exception:
+            pass
+        for f in sorted(glob.glob(os.path.join(out, "violation-*.json"))):
+            doc = json.load(open(f))
+            if doc.get("signature") in seen:
+                continue
+            seen.add(doc.get("signature"))
+            if report(doc, os.path.basename(f)[10:26]):
+                found += 1
+    infra = 0
+    for c in crashes[:20]:
+        base = os.path.basename(c)
+        if base.startswith(("timeout", "oom")):
+            print(f"fuzz stage: {base} (infrastructure: not a verdict)", file=sys.stderr)
+            infra += 1
+            continue
+        # the process died inside a case (abort, stack overflow, harness bug): decode the tape, judge strictly
+        r = subprocess.run([BIN, "fuzzcase", ID, c], capture_output=True, text=True, env=dict(os.environ, VERIF_PROFILE="A"))
+        if r.returncode != 0 or not r.stdout.strip():
+            infra += 1
+            continue
+        doc = json.loads(r.stdout)
+        doc.update({"signature": f"{ID}:libfuzzer-crash", "message": "the fuzz process died while judging this case"})
+        if report(doc, base[-16:]):
+            found += 1
+        else:
+            print(f"fuzz stage: {base}: the process died but the case passes the strict judge (infrastructure: not a verdict)", file=sys.stderr)
+            infra += 1
+    shutil.rmtree(work, ignore_errors=True)
+    note.update({"status": "ran", "total_execs": total, "crash_artifacts": len(crashes), "infrastructure_events": infra,
+                 "confirmed_violations": found, "seed": SEED, "cases": stats})
+
+
+if ID in BYTE:
+    byte_stage()
+if ID in PROP:
+    prop_stage()
+if not notes:
+    sys.exit(0)
+if all(n.get("status", "").startswith("build failed") for n in notes.values()):
+    finish(3)
+finish(1 if confirmed else 0)
